@@ -8,9 +8,19 @@ Definition zero32 : bytes := repeat x00 32.
 Definition fmr256 (ls : list bytes) : bytes := match fmr_impl zero32 cmp256 ls with Some r => r | None => [] end.
 Definition fmr256_spec (ls : list bytes) : bytes := fmr_spec zero32 cmp256 ls.
 
+(* "C18 rep <count> <28 bytes hex>": leaf i = the 4-byte little-endian i followed by the 28 given bytes (large counts in a short case line) *)
+Fixpoint rep_leaves (n : nat) (i : N) (tail : bytes) : list bytes :=
+  match n with O => [] | S k => (n2b i :: n2b (i / 256) :: n2b (i / 65536) :: n2b (i / 16777216) :: tail) :: rep_leaves k (i + 1)%N tail end.
+
 (* case: "C18 <hexlist of 32-byte leaves>"  ->  hex root *)
 Definition run (args : list bytes) : bytes :=
   match args with
+  | [k; cnt; tl] =>
+      if bytes_eqb k "rep"%lb then
+        match N_of_dec cnt, bytes_of_hex tl with
+        | Some n, Some t => if Nat.eqb (length t) 28 then hex_of_bytes (fmr256 (rep_leaves (N.to_nat n) 0%N t)) else err "tail"
+        | _, _ => err "parse" end
+      else err "args"
   | [ls] => match hexlist ls with
             | Some leaves => hex_of_bytes (fmr256 leaves)
             | None => err "hex" end
